@@ -379,9 +379,12 @@ def fold(t, env, calls=None):
             return env[t[1]]
         raise CannotFold("unbound parameter p%d" % t[1])
     if k == "const":
-        v = scalar(thaw(t[2]))
+        raw = thaw(t[2])
+        while isinstance(raw, dict) and "$ref" in raw and len(raw) == 1:
+            raw = raw["$ref"]
+        v = scalar(raw)
         if v is None:
-            v = thaw(t[2])
+            v = raw
             if v is None:
                 raise CannotFold("constant without value: %r" % (t[1],))
         return v
@@ -452,6 +455,8 @@ def fold(t, env, calls=None):
         raise CannotFold("cast to " + t[1])
     if k == "field":
         a = fold(t[1], env, calls)
+        if isinstance(a, list) and t[2].isdigit() and int(t[2]) < len(a):
+            return a[int(t[2])]
         if isinstance(a, dict):
             if t[2] in a:
                 x = a[t[2]]
@@ -478,7 +483,31 @@ def fold(t, env, calls=None):
         raise CannotFold("call to " + t[1])
     if k == "agg":
         vals = [fold(x, env, calls) for x in t[2]]
+        if t[1].endswith("Option::Some"):
+            return ("Some", vals[0])
+        if t[1].endswith("Option::None"):
+            return None
+        if t[1].startswith("core::result::Result::"):
+            return (t[1].split("::")[-1], vals[0] if vals else None)
         if len(vals) == 1:
             return vals[0]  # newtype construction
+        if not vals and "::" in t[1]:
+            return ("variant", t[1].split("::")[-1])
         return vals
+    if k == "variant":
+        a = fold(t[1], env, calls)
+        if isinstance(a, tuple) and len(a) == 2 and a[0] == t[2]:
+            return [a[1]]
+        raise CannotFold("downcast of %r to %s" % (a, t[2]))
+    if k == "discr":
+        a = fold(t[1], env, calls)
+        if a is None:
+            return 0
+        if isinstance(a, tuple) and a[0] == "Some":
+            return 1
+        if isinstance(a, tuple) and a[0] in ("Ok", "Err"):
+            return 0 if a[0] == "Ok" else 1
+        if isinstance(a, int):
+            return a
+        raise CannotFold("discriminant of %r" % (a,))
     raise CannotFold("term kind " + k)
